@@ -29,13 +29,24 @@ UnitLensSmall == [ small           |-> <<1, 1, 1, 1>>,
                    page_multiple   |-> <<4096, 8192, 256, 3840>>,      \* 12288 and 4096
                    zone_multiple   |-> <<32768, 32768, 49152, 16384>>, \* 65536 and 65536
                    one_below       |-> <<4000, 95, 65000, 535>>,       \* 4095 and 65535
-                   one_above       |-> <<4096, 1, 65536, 1>> ]         \* 4097 and 65537
+                   one_above       |-> <<4096, 1, 65536, 1>>,          \* 4097 and 65537
+                   scaled          |-> <<2, 1, 3, 2>> ]                \* proportions only
 UnitLensFull  == [ small           |-> <<1, 1, 1, 1, 1, 1>>,
                    page_multiple   |-> <<4096, 4096, 4096, 2048, 4096, 2048>>,      \* 12288 and 8192
                    zone_multiple   |-> <<32768, 16384, 16384, 16384, 16384, 32768>>,
                    one_below       |-> <<2048, 1024, 1023, 32768, 16384, 16383>>,   \* 4095 and 65535
-                   one_above       |-> <<2048, 2048, 1, 32768, 32768, 1>> ]         \* 4097 and 65537
+                   one_above       |-> <<2048, 2048, 1, 32768, 32768, 1>>,          \* 4097 and 65537
+                   scaled          |-> <<1, 1, 1, 2, 2, 1>> ]                       \* proportions only
 AllSizes == {"small", "page_multiple", "zone_multiple", "one_below", "one_above"}
+
+\* the size of the file as text: just below / just above 64 KiB, 1, 2 and 4 MiB of HEX text, with
+\* records of 1, 3, 16, 32 and 255 bytes; LF and CRLF alternate over the combinations
+ThrSeq  == <<65536, 1048576, 2097152, 4194304>>
+RlenSeq == <<1, 3, 16, 32, 255>>
+ScalesDef == {[thr |-> ThrSeq[t], side |-> sd, rlen |-> RlenSeq[r],
+               eol |-> IF (t + r + (IF sd = "below" THEN 0 ELSE 1)) % 2 = 0 THEN "lf" ELSE "crlf"] :
+                 t \in 1..4, r \in 1..5, sd \in {"below", "above"}}
+ScalesBelow == {sc \in ScalesDef : sc.side = "below"}
 
 \* invocation forms and setups (covering sets: every pair of values of two dimensions occurs)
 FormsDef == << [addr |-> "rel",      cwd |-> "imgdir", pub |-> "rel"],
